@@ -117,7 +117,7 @@ def check_jt(jt, fs_model, case, drv, what):
 
 # ----------------------------------------------------------------------------- MN <-> FG, -> JT
 def gen_mn(rng, tier):
-    case = mnet.gen_mn_case(rng, connected=rng.random() < .8)
+    case = mnet.gen_mn_case(rng, connected=rng.random() < .8, special=rng.choice([None, None, None, "one"]))
     case["target"] = rng.choice(["fg", "fg", "jt", "jt", "fg_jt", "fg_mn"])
     return case
 
@@ -195,7 +195,7 @@ def run_mn(case, drv):
 # ----------------------------------------------------------------------------- triangulation
 def gen_tri(rng, tier):
     n = rng.randint(3, 6)
-    case = mnet.gen_mn_case(rng, nmin=n, nmax=n, connected=True, dup=False)
+    case = mnet.gen_mn_case(rng, nmin=n, nmax=n, connected=True, dup=False, special=rng.choice([None, None, None, "one"]))
     # add a few extra pairwise factors to create chordless cycles
     for _ in range(rng.randint(0, 3)):
         a, b = rng.sample(range(n), 2)
